@@ -1,8 +1,8 @@
 SPECIFICATION RTSpec
 CONSTANTS
- DrainBug = TRUE
- LinkCode = TRUE
- DupPathBug = TRUE
+ DrainBug = FALSE
+ LinkCode = FALSE
+ DupPathBug = FALSE
  Ids <- ThoroughIds
 INVARIANTS XOnce XComplete XSinglePass XRoundTrip Ordered
 PROPERTY Termination
